@@ -3,5 +3,8 @@
 for p in ${@:-C03 C12 C13 C14 C15 C16 C17 C19}; do
   bin/check $p --tier thorough --no-evidence --dump-keys > thorough_$p.log 2>&1
   echo "$p exit=$? $(grep -E 'ok tier|FAIL' thorough_$p.log | cut -c1-200)"
-  grep -E "^\[C..\] KEY" thorough_$p.log | grep -v "crash:linker-import\|hang:after-pass-2\|Address-not-on-N-bit" | cut -c1-500
+  grep -E "^\[C..\] KEY" thorough_$p.log | grep -v -F -f <(python3 -c "
+import json
+for k in json.load(open('known_findings.json')):
+    if k.get('status')=='open': print(k['key'])") | cut -c1-500
 done
